@@ -406,10 +406,11 @@ def main(prog: Union[str, None] = None) -> None:
                 i += w
             return '\n'.join(s2)
 
-        if not is_conform:
-            from rdflib import Graph
-            from rdflib.namespace import SH
+        from rdflib import Graph
+        from rdflib.namespace import SH
 
+        # a conforming report can have results too (allow_infos / allow_warnings): list whatever was reported
+        if isinstance(v_graph, Graph) and any(True for _ in v_graph.objects(None, SH.result)):
             t2 = PrettyTable()
             t2.field_names = ['No.', 'Severity', 'Focus Node', 'Result Path', 'Message', 'Component', 'Shape', 'Value']
             t2.align = "l"
